@@ -10,7 +10,13 @@
                          (same ghost histories: the revision counter is rewound to the snapshot's,
                          the inputs come back with their stamps), when the persisted functions
                          only call persisted functions ([Statement.persisted_closed]);
-   [results_closed]      hence: every Get of every history with snapshots and restores returns
+   [restore_flat_ok], [restore_flat_ok_clean]
+                         the same for EVERY program and choice of persisted functions in flat mode
+                         (all durabilities LOW): the flattened dependencies, to any depth, become
+                         observers at the revisions their memos were verified at ([exp_good],
+                         from ProofsFlatten.flatten_closed / flatten_fn / flatten_under);
+   [results_closed], [results_low]
+                         hence: every Get of every history with snapshots and restores returns
                          the from-scratch value of the current inputs, or unwinds with a base
                          panic, outside the uninitialised-ingredient class;
    [results_general]     the common induction over the history ([step_ok] per operation), from
@@ -37,10 +43,13 @@ Hypothesis Hrank : calls_below (tprog uprog) rank.
 Variable NF : nat.
 Hypothesis Hbound : forall q, (rank q < NF)%nat.
 Variable sfuel : nat.
+(* flat mode: restored memos whose dependencies were flattened away are allowed, all
+   durabilities are LOW; otherwise every memo records its direct reads *)
+Variable fm : bool.
 Let prog : qkey -> CM.body := tprog uprog.
-Notation DInv := (DInv prog NF).
-Notation OK := (OK uprog NF).
-Notation OK_d := (OK_d uprog NF).
+Notation DInv := (DInv prog NF fm).
+Notation OK := (OK uprog NF fm).
+Notation OK_d := (OK_d uprog NF fm).
 Notation fresh := (PInvTop.fresh).
 Notation pstep := (Statement.pstep uprog noeq pfam fams lru0 sfuel).
 
@@ -62,11 +71,31 @@ Proof.
   destruct (evict_all_sbm fams s1) as [a b c d e f g]. rewrite b, c, f. repeat split; auto.
 Qed.
 
+Lemma new_revision_lcs s k :
+  revs_ok (d_revs s) ->
+  lcs s k <= lcs (new_revision fams s) k /\ (1 <= k -> lcs (new_revision fams s) k = lcs s k).
+Proof.
+  intros (R1 & R2 & R3). unfold lcs. rewrite new_revision_revs.
+  destruct (lc_cases (d_revs s) k) as [[-> E0] | [[-> E0] | [[-> E0] | [Hk E0]]]]; rewrite E0.
+  - cbn. split; [lia | intros; lia].
+  - rewrite last_changed_medium. cbn. split; [lia | reflexivity].
+  - rewrite last_changed_high. cbn. split; [lia | reflexivity].
+  - rewrite lc_never by exact Hk. split; [lia | reflexivity].
+Qed.
+
 Lemma OK_d_new_revision s : OK_d s -> OK (new_revision fams s) /\ fresh (new_revision fams s).
 Proof.
   intros Hok. destruct (new_revision_facts s) as (A & _ & _ & F).
-  apply (OK_advance uprog NF s); auto.
-  - apply new_revision_revs.
+  destruct (OK_d_inputs uprog NF fm s Hok) as (Rv & Hd3 & Hlow).
+  pose proof (new_revision_revs s) as Hr.
+  apply (OK_advance_gen uprog NF fm s); auto.
+  - rewrite Hr. reflexivity.
+  - destruct Rv as (R1 & R2 & R3). rewrite Hr. unfold revs_ok; cbn. lia.
+  - intros k. apply (new_revision_lcs s k Rv).
+  - intros i. left. rewrite A. reflexivity.
+  - intros i. rewrite A. apply Hd3.
+  - intros Hf. destruct (Hlow Hf) as [L1 L2]. split; [intros i; rewrite A; apply L1|].
+    intros k Hk. rewrite (proj2 (new_revision_lcs s k Rv) Hk). apply (L2 k Hk).
   - apply evicted_sub_sim; exact F.
 Qed.
 
@@ -86,14 +115,14 @@ Lemma OK_d_zalsa_mut s : OK_d s -> OK_d (zalsa_mut fams s).
 Proof.
   intros Hok. unfold zalsa_mut. destruct (d_ccount s =? 255).
   - apply OK_to_d. apply OK_d_new_revision; exact Hok.
-  - apply (OK_d_same uprog NF s); auto. apply evicted_sub_sim, evicted_refl.
+  - apply (OK_d_same uprog NF fm s); auto. apply evicted_sub_sim, evicted_refl.
 Qed.
 
 Lemma OK_zalsa_mut s : OK s -> OK (zalsa_mut fams s).
 Proof.
   intros Hok. unfold zalsa_mut. destruct (d_ccount s =? 255).
   - apply OK_d_new_revision. apply OK_to_d; exact Hok.
-  - apply (OK_same uprog NF s); auto. apply evicted_sub_sim, evicted_refl.
+  - apply (OK_same uprog NF fm s); auto. apply evicted_sub_sim, evicted_refl.
 Qed.
 
 Lemma evict_all_facts s :
@@ -124,23 +153,23 @@ Lemma db_get_ok fuel s q :
    end) /\ d_in (fst r) = d_in s /\ d_cell (fst r) = d_cell s.
 Proof.
   intros Hfuel [(H & D & HI) Hst]. cbn zeta.
-  destruct (dlevel_ok uprog noeq rank Hrank NF Hbound H D fuel) as [HF HM].
+  destruct (dlevel_ok uprog noeq rank Hrank NF Hbound fm H D fuel) as [HF HM].
   assert (Hso : stack_ok rank s q) by (intros p Hp; rewrite Hst in Hp; destruct Hp).
   assert (Hq : (rank q <= fuel)%nat) by (specialize (Hfuel q); lia).
-  pose proof (fetch_ok uprog noeq rank Hrank NF Hbound H D (level uprog noeq fuel) fuel HF HM q s Hq HI Hso) as Hwp.
+  pose proof (fetch_ok uprog noeq rank Hrank NF Hbound fm H D (level uprog noeq fuel) fuel HF HM q s Hq HI Hso) as Hwp.
   unfold wp in Hwp.
   destruct (fetch uprog noeq (level uprog noeq fuel) q s) as [s' [[[v d] c] | p |]] eqn:Hf; cbn [fst snd].
   - destruct Hwp as (HI' & He & _ & Hs' & Hv & _). cbn [fst snd] in Hv.
-    split; [|split; [apply (ext_in _ _ He) | apply (ext_cell _ _ He)]].
+    split; [|split; [apply (ext_in _ _ _ _ _ _ He) | apply (ext_cell _ _ _ _ _ _ He)]].
     split.
     + rewrite Hv. unfold Inv.E.
       rewrite <- (eval_tb uprog NF (Spec.snap_of s) q). rewrite <- csnap_snap_of.
-      exact (Salsa.Core.InvTop.eval_snap_eq (tprog uprog) _ _ (DInv_snap uprog NF H D s HI) NF q).
+      exact (Salsa.Core.InvTop.eval_snap_eq (tprog uprog) _ _ (DInv_snap uprog NF fm H D s HI) NF q).
     + split; [exists H, D; exact HI' | congruence].
   - destruct Hwp as (Ha & HI' & He).
-    split; [|split; [apply (ext_in _ _ He) | apply (ext_cell _ _ He)]].
+    split; [|split; [apply (ext_in _ _ _ _ _ _ He) | apply (ext_cell _ _ _ _ _ _ He)]].
     split; [exact Ha|]. split; [|reflexivity].
-    exists H, D. apply (DInv_core_eq prog NF H D s'); [repeat split | exact HI'].
+    exists H, D. apply (DInv_core_eq prog NF fm H D s'); [repeat split | exact HI'].
   - destruct Hwp.
 Qed.
 
@@ -148,19 +177,23 @@ Qed.
 Lemma OK_d_same_cells s s' :
   OK_d s -> d_revs s' = d_revs s -> d_in s' = d_in s -> d_memo s' = d_memo s -> OK_d s'.
 Proof.
-  intros Hok Hr Hi Hm. apply (OK_d_same uprog NF s); auto.
+  intros Hok Hr Hi Hm. apply (OK_d_same uprog NF fm s); auto.
   rewrite Hm. apply evicted_sub_sim, evicted_refl.
 Qed.
 
 Lemma OK_same_all s s' :
   OK s -> d_revs s' = d_revs s -> d_in s' = d_in s -> d_cell s' = d_cell s -> d_memo s' = d_memo s -> OK s'.
 Proof.
-  intros Hok Hr Hi Hc Hm. apply (OK_same uprog NF s); auto.
+  intros Hok Hr Hi Hc Hm. apply (OK_same uprog NF fm s); auto.
   rewrite Hm. apply evicted_sub_sim, evicted_refl.
 Qed.
 
+(* in flat mode a write keeps the durability LOW *)
+Definition low_dur (d : option dur) : Prop :=
+  fm = true -> match d with Some d' => d' = 0 | None => True end.
+
 Lemma db_set_ok dirty s i v d :
-  Statement.dur_op (OSet i v d) -> state_ok dirty s ->
+  Statement.dur_op (OSet i v d) -> low_dur d -> state_ok dirty s ->
   let s1 := new_revision fams (zalsa_mut fams s) in
   state_ok false s1 /\
   (f_dur (d_in s1 i) =? D_NEVER = false ->
@@ -169,30 +202,74 @@ Lemma db_set_ok dirty s i v d :
                 f_dur := match d with Some d' => d' | None => f_dur (d_in s1 i) end |} in
    state_ok false (set_in (set_revs s1 r1) (upd (d_in s1) i f'))).
 Proof.
-  intros Hdop Hok. pose proof (state_ok_d dirty s Hok) as Hd.
+  intros Hdop Hlowd Hok. pose proof (state_ok_d dirty s Hok) as Hd.
   assert (Hst : d_stack s = []) by (destruct Hok; assumption).
   pose proof (OK_d_zalsa_mut s Hd) as Hz.
   destruct (OK_d_new_revision _ Hz) as [Hn Hfresh].
-  cbn zeta. set (s1 := new_revision fams (zalsa_mut fams s)) in *.
+  cbn zeta. set (z := zalsa_mut fams s) in *. set (s1 := new_revision fams z) in *.
   assert (Hst1 : d_stack s1 = []).
-  { unfold s1. destruct (new_revision_facts (zalsa_mut fams s)) as (_ & _ & E0 & _).
-    rewrite E0, zalsa_mut_stack. exact Hst. }
+  { unfold s1. destruct (new_revision_facts z) as (_ & _ & E0 & _).
+    rewrite E0. unfold z. rewrite zalsa_mut_stack. exact Hst. }
   split; [split; assumption|].
   intros Hnever. split; [|exact Hst1].
   apply N.eqb_neq in Hnever. unfold D_NEVER in Hnever.
-  assert (Hnd : match d with Some d' => d' | None => f_dur (d_in s1 i) end <= 3).
-  { destruct d as [d'|]; [exact Hdop|].
-    destruct Hn as (H1 & D1 & HI1).
-    rewrite <- (inv_dur _ _ _ _ _ HI1 i (cur s1)); [apply (inv_dur3 _ _ _ _ _ HI1) | apply (inv_in_le _ _ _ _ _ HI1) | lia]. }
-  exact (OK_write uprog NF s1 i v _ Hn Hfresh Hnever Hnd).
+  destruct (new_revision_facts z) as (A & _ & _ & F). fold s1 in A, F.
+  destruct (OK_d_inputs uprog NF fm z Hz) as (Rv & Hd3 & Hlow).
+  pose proof (new_revision_revs z) as Hr. fold s1 in Hr.
+  assert (Rv1 : revs_ok (d_revs s1)).
+  { destruct Rv as (R1 & R2 & R3). rewrite Hr. unfold revs_ok; cbn. lia. }
+  set (od := f_dur (d_in s1 i)) in *.
+  assert (Hod : od = f_dur (d_in z i)) by (unfold od; rewrite A; reflexivity).
+  assert (Hod3 : od < 3) by (specialize (Hd3 i); rewrite <- Hod in Hd3; lia).
+  set (r1 := if od =? D_LOW then d_revs s1 else report_write (d_revs s1) od).
+  set (f' := {| f_val := v; f_changed := cur s1;
+                f_dur := match d with Some d' => d' | None => od end |}).
+  set (s2 := set_in (set_revs s1 r1) (upd (d_in s1) i f')).
+  assert (Hcur_r1 : r_cur r1 = r_cur (d_revs s1)).
+  { unfold r1. destruct (od =? D_LOW); reflexivity. }
+  assert (Hc2 : cur s2 = cur s1) by (unfold cur, s2; cbn; exact Hcur_r1).
+  assert (Hlc12 : forall k, lcs s1 k <= lcs s2 k).
+  { intros k. unfold lcs, s2; cbn. unfold r1. destruct (od =? D_LOW); [lia|].
+    apply lc_report_write_ge; exact Rv1. }
+  assert (Hlc_od : lcs s2 od = cur s1).
+  { unfold lcs, s2; cbn. unfold r1.
+    destruct (N.eqb_spec od D_LOW) as [H0 | H0].
+    - unfold D_LOW in H0. rewrite H0. apply lc_zero.
+    - rewrite lc_report_write.
+      destruct (N.eqb_spec od 0) as [E0 | Hk0]; [reflexivity|].
+      destruct (N.leb_spec od od) as [_ | Hx]; [|lia].
+      destruct (N.ltb_spec od 3) as [_ | Hx]; [|lia]. reflexivity. }
+  refine (proj1 (OK_advance_gen uprog NF fm z s2 Hz _ _ _ _ _ _ _)).
+  - cbn. rewrite Hcur_r1, Hr. reflexivity.
+  - cbn. unfold r1. destruct (od =? D_LOW); [exact Rv1 | apply revs_ok_report_write; exact Rv1].
+  - intros k. pose proof (proj1 (new_revision_lcs z k Rv)) as B. fold s1 in B. specialize (Hlc12 k). lia.
+  - intros j. destruct (key_eqb_spec j i) as [-> | Hji].
+    + right. split.
+      * unfold s2 at 1; cbn. rewrite upd_same. cbn. symmetry. exact Hc2.
+      * rewrite <- Hod, Hc2. exact Hlc_od.
+    + left. unfold s2; cbn. rewrite upd_other by congruence. rewrite A. reflexivity.
+  - intros j. destruct (key_eqb_spec j i) as [-> | Hji].
+    + unfold s2; cbn. rewrite upd_same. cbn. destruct d as [d'|]; [exact Hdop | lia].
+    + unfold s2; cbn. rewrite upd_other by congruence. rewrite A. apply Hd3.
+  - intros Hf. destruct (Hlow Hf) as [L1 L2].
+    assert (Hod0 : od = 0) by (rewrite Hod; apply L1).
+    split.
+    + intros j. destruct (key_eqb_spec j i) as [-> | Hji].
+      * unfold s2; cbn. rewrite upd_same. cbn. specialize (Hlowd Hf). destruct d as [d'|]; [exact Hlowd | exact Hod0].
+      * unfold s2; cbn. rewrite upd_other by congruence. rewrite A. apply L1.
+    + intros k Hk. unfold lcs, s2; cbn. unfold r1. rewrite Hod0. cbn.
+      pose proof (proj2 (new_revision_lcs z k Rv) Hk) as B. fold s1 in B. unfold lcs in B. rewrite B.
+      apply (L2 k Hk).
+  - unfold s2; cbn. apply evicted_sub_sim. exact F.
 Qed.
 
 Lemma db_synth_ok dirty s d :
+  (fm = true -> d = 0) ->
   state_ok dirty s ->
   let s1 := new_revision fams (zalsa_mut fams s) in
   state_ok false s1 /\ state_ok false (set_revs s1 (report_write (d_revs s1) d)).
 Proof.
-  intros Hok. pose proof (state_ok_d dirty s Hok) as Hd.
+  intros Hlowd Hok. pose proof (state_ok_d dirty s Hok) as Hd.
   assert (Hst : d_stack s = []) by (destruct Hok; assumption).
   pose proof (OK_d_zalsa_mut s Hd) as Hz.
   destruct (OK_d_new_revision _ Hz) as [Hn Hfresh].
@@ -201,10 +278,13 @@ Proof.
   { unfold s1. destruct (new_revision_facts (zalsa_mut fams s)) as (_ & _ & E0 & _).
     rewrite E0, zalsa_mut_stack. exact Hst. }
   split; [split; assumption|]. split; [|exact Hst1].
-  assert (Hrv1 : revs_ok (d_revs s1)) by (destruct Hn as (H1 & D1 & HI1); apply (inv_revs _ _ _ _ _ HI1)).
-  apply (OK_revs uprog NF s1); auto.
+  destruct (OK_d_inputs uprog NF fm s1 (OK_to_d uprog NF fm s1 Hn)) as (Hrv1 & _ & Hlow).
+  apply (OK_revs uprog NF fm s1); auto.
   - cbn. apply revs_ok_report_write; exact Hrv1.
   - intros k. unfold lcs; cbn. apply lc_report_write_ge; exact Hrv1.
+  - intros Hf k Hk. rewrite (Hlowd Hf). unfold lcs; cbn. rewrite lc_report_write.
+    destruct (N.eqb_spec k 0) as [-> | _]; [lia|].
+    destruct (N.leb_spec k 0) as [Hx | _]; [lia|]. cbn. apply (proj2 (Hlow Hf) k Hk).
 Qed.
 
 (* ---------------------------------------------------------------- restore (snapshot s) *)
@@ -212,17 +292,23 @@ Section Closed.
 Hypothesis Hclosed : Statement.persisted_closed uprog pfam.
 
 (* with [persisted_closed] every edge of a persisted function's memo is serialised directly *)
+Lemma reach_closed q d : pfam (fst q) = true -> reach prog q d -> pfam (fst d) = true.
+Proof.
+  intros Hp Hr. induction Hr as [q d Hc | q d e Hc _ IH].
+  - apply (Hclosed q d Hp). apply calls_tb. exact Hc.
+  - apply IH. apply (Hclosed q d Hp). apply calls_tb. exact Hc.
+Qed.
+
 Lemma edges_persistable H D s q m :
   DInv H D s -> d_memo s q = Some m -> pfam (fst q) = true -> all_persistable pfam (m_edges m).
 Proof.
   intros HI Hm Hp e He. destruct e as [i|d]; [reflexivity|]. cbn.
-  pose proof (mo_edges_q _ _ _ _ _ _ _ (inv_memo _ _ _ _ _ HI q m Hm) d He) as Hin.
-  apply (Hclosed q d Hp). apply calls_tb.
-  exact (calls_of_trace _ _ _ Hin).
+  apply (reach_closed q d Hp).
+  apply (mo_edges_reach _ _ _ _ _ _ _ _ (inv_memo _ _ _ _ _ _ HI q m Hm) d He).
 Qed.
 
 Lemma snapshot_sub_sim H D s :
-  DInv_d uprog NF H D s -> sub_sim (d_memo s) (snap_memo pfam (d_memo s) sfuel).
+  DInv_d uprog NF fm H D s -> sub_sim (d_memo s) (snap_memo pfam (d_memo s) sfuel).
 Proof.
   intros HI q m' Hs. unfold snap_memo in Hs.
   destruct (d_memo s q) as [m|] eqn:Hm; [|discriminate].
@@ -247,7 +333,7 @@ Theorem restore_ok s ext :
   state_ok true (restore (snapshot pfam sfuel s) ext lru0).
 Proof.
   intros (H & D & HI) Hst. split; [|reflexivity].
-  apply (OK_d_same uprog NF s); try reflexivity; [exists H, D; exact HI|].
+  apply (OK_d_same uprog NF fm s); try reflexivity; [exists H, D; exact HI|].
   apply (snapshot_sub_sim H D s HI).
 Qed.
 
@@ -256,11 +342,236 @@ Theorem restore_ok_clean s ext :
   state_ok false (restore (snapshot pfam sfuel s) ext lru0).
 Proof.
   intros (H & D & HI) Hst Hc. split; [|reflexivity].
-  apply (OK_same uprog NF s); try reflexivity; [exists H, D; exact HI | exact Hc|].
+  apply (OK_same uprog NF fm s); try reflexivity; [exists H, D; exact HI | exact Hc|].
   apply (snapshot_sub_sim H D s). apply DInv_to_d. exact HI.
 Qed.
 
 End Closed.
+
+(* ---------------------------------------------------------------- restore (snapshot s), flat mode *)
+(* Any program, any choice of persisted functions; all durabilities LOW.  The dependencies
+   that the snapshot flattened away become virtual observers at the revision their memos were
+   verified at. *)
+Section Flat.
+Hypothesis Hfm : fm = true.
+Hypothesis Hsfuel : forall p, (S (rank p) < sfuel)%nat.
+Notation good := (good prog NF fm).
+Notation obs_ok := (obs_ok prog NF).
+Notation dmemo_ok := (dmemo_ok prog NF fm).
+
+Lemma good_subst H D s s2 L L' v0 v d :
+  (forall g w k, obs_ok H D s g w k -> obs_ok H D s2 g w k) -> cur s <= cur s2 -> v <= v0 ->
+  (forall i, In (EIn i) L -> In (EIn i) L') ->
+  (forall e, In (EQ e) L -> ~ In (EQ e) L' -> good H D s2 L' v e) ->
+  good H D s L v0 d -> good H D s2 L' v d.
+Proof.
+  intros Hot Hc Hv Hin Hfn Hg. induction Hg as [d a k Hf Hk Ha Hd | d rho k Ho Hv0 Hu Hi Hq IH].
+  - apply (good_never prog NF fm H D s2 L' v d a k Hf Hk); [lia | exact Hd].
+  - apply (good_exp prog NF fm H D s2 L' v d rho k); auto; [lia|].
+    intros d' Hd' Hn. destruct (edge_in_dec (EQ d') L) as [HinL | HnL].
+    + apply Hfn; assumption.
+    + apply IH; assumption.
+Qed.
+
+Section OneState.
+Variables (H : hist) (D : dhist) (s s2 : db).
+Hypothesis HIm : forall g mg, d_memo s g = Some mg -> dmemo_ok H D s g mg.
+Hypothesis Hot : forall g w k, obs_ok H D s g w k -> obs_ok H D s2 g w k.
+Hypothesis Hc2 : cur s2 = cur s.
+Hypothesis Hm2 : d_memo s2 = snap_memo pfam (d_memo s) sfuel.
+Let mm := d_memo s.
+
+Let edge_rank : forall g m c, mm g = Some m -> In (EQ c) (m_edges m) -> (rank c < rank g)%nat.
+Proof.
+  intros g m c Hm Hc. apply (reach_rank prog rank Hrank).
+  apply (mo_edges_reach _ _ _ _ _ _ _ _ (HIm g m Hm) c Hc).
+Qed.
+
+Section OneMemo.
+Variables (q : qkey) (m : memo).
+Hypothesis Hm : mm q = Some m.
+Let L := m_edges m.
+Let v := m_verified m.
+Let out := fst (flatten_full pfam mm sfuel L).
+Let vis := snd (flatten_full pfam mm sfuel L).
+
+Let Hes : forall e, In e L -> (erank rank e < sfuel)%nat.
+Proof. intros e _. destruct e as [i|c]; cbn; [specialize (Hsfuel q); lia | apply Hsfuel]. Qed.
+
+Let Hclosed3 := flatten_closed pfam mm rank edge_rank sfuel L Hes.
+
+Let Hvis_memo g : In (EQ g) vis -> exists mg, mm g = Some mg.
+Proof.
+  intros Hg. destruct Hclosed3 as (V & _ & _). destruct (V _ Hg) as (g' & mg & E0 & Hmg).
+  injection E0 as <-. exists mg. exact Hmg.
+Qed.
+
+Let Hcov_in i : In (EIn i) L -> In (EIn i) out.
+Proof.
+  intros Hi. destruct Hclosed3 as (V & _ & Cov). destruct (Cov _ Hi) as [Ho | Hv]; [exact Ho|].
+  destruct (V _ Hv) as (g' & mg & E0 & _). discriminate.
+Qed.
+
+(* no expanded dependency had untracked reads *)
+Hypothesis Hvt : forall g mg, In (EQ g) vis -> mm g = Some mg -> m_untracked mg = false.
+
+Lemma exp_good : forall n g mg, (rank g < n)%nat -> In (EQ g) vis -> mm g = Some mg ->
+  v <= m_verified mg -> good H D s2 out v g.
+Proof.
+  induction n as [|n IH]; intros g mg Hn Hg Hmg Hvg; [inversion Hn|].
+  pose proof (HIm g mg Hmg) as Hok.
+  pose proof (mo_order _ _ _ _ _ _ _ _ Hok) as (O1 & O2 & O3).
+  destruct (N.eq_dec (m_dur mg) 0) as [Hz | Hnz].
+  2:{ apply (good_never prog NF fm H D s2 out v g (m_verified mg) (m_dur mg) Hfm); [lia | lia|].
+      apply (mo_durge _ _ _ _ _ _ _ _ Hok). }
+  destruct Hclosed3 as (V & C & Cov).
+  assert (Hedge : forall e, In e (m_edges mg) ->
+            match e with
+            | EIn i => In (EIn i) out
+            | EQ e' => ~ In (EQ e') out -> good H D s2 out v e'
+            end).
+  { intros e He. pose proof (C g mg Hg (fun F => F) Hmg e He) as Hcv.
+    destruct e as [i | e'].
+    - destruct Hcv as [Ho | Hv]; [exact Ho|]. destruct (V _ Hv) as (g' & mg' & E0 & _). discriminate.
+    - intros Hn'. destruct Hcv as [Ho | Hv]; [contradiction|].
+      destruct (Hvis_memo e' Hv) as (me & Hme).
+      apply (IH e' me); [pose proof (edge_rank g mg e' Hmg He); lia | exact Hv | exact Hme|].
+      pose proof (mo_sync _ _ _ _ _ _ _ _ Hok Hz e' me He Hme). lia. }
+  apply (good_exp prog NF fm H D s2 out v g (m_verified mg) (m_dur mg)).
+  - apply Hot. apply (obs_of_memo prog NF fm H D s g mg Hok).
+  - exact Hvg.
+  - intros x Hx Hux. pose proof (mo_reads_cell _ _ _ _ _ _ _ _ Hok x Hx Hux) as A.
+    pose proof (Hvt g mg Hg Hmg). congruence.
+  - intros i Hi. apply (Hedge _ (mo_in _ _ _ _ _ _ _ _ Hok i Hi)).
+  - intros d' Hd' Hn'. destruct (edge_in_dec (EQ d') (m_edges mg)) as [HinL | HnL].
+    + apply (Hedge _ HinL). exact Hn'.
+    + apply (good_subst H D s s2 (m_edges mg) out (m_verified mg) v d' Hot); [lia | exact Hvg | | |].
+      * intros i Hi. apply (Hedge _ Hi).
+      * intros e He Hne. apply (Hedge _ He). exact Hne.
+      * apply (mo_q _ _ _ _ _ _ _ _ Hok (Hvt g mg Hg Hmg) d' Hd' HnL).
+Qed.
+
+Lemma flat_reach g : In (EQ g) out -> reach prog q g.
+Proof.
+  intros Hg. destruct (flatten_under pfam mm sfuel L) as [Uo _]. specialize (Uo _ Hg).
+  assert (G : forall e, under mm L e -> forall g0, e = EQ g0 -> reach prog q g0).
+  { intros e Hu. induction Hu as [e He | g1 m1 e Hu IH Hm1 He]; intros g0 ->.
+    - apply (mo_edges_reach _ _ _ _ _ _ _ _ (HIm q m Hm) g0 He).
+    - eapply reach_trans; [apply (IH g1 eq_refl)|].
+      apply (mo_edges_reach _ _ _ _ _ _ _ _ (HIm g1 m1 Hm1) g0 He). }
+  apply (G _ Uo g eq_refl).
+Qed.
+
+End OneMemo.
+
+(* the serialised memo of q, in the restored database *)
+Lemma flat_edges_ok q m' : d_memo s2 q = Some m' -> edges_ok uprog NF fm H D s2 q m'.
+Proof.
+  rewrite Hm2. unfold snap_memo. fold mm.
+  destruct (mm q) as [m|] eqn:Hm; [|discriminate].
+  destruct (m_val m) as [x|] eqn:Hx; [|discriminate].
+  destruct (pfam (fst q)) eqn:Hp; [|discriminate]. intros E0. injection E0 as <-.
+  pose proof (HIm q m Hm) as Hok.
+  pose proof (mo_order _ _ _ _ _ _ _ _ Hok) as (O1 & O2 & O3).
+  set (L := m_edges m). set (L' := flatten pfam mm sfuel L).
+  assert (Hes : forall e, In e L -> (erank rank e < sfuel)%nat).
+  { intros e _. destruct e as [i|c]; cbn; [specialize (Hsfuel q); lia | apply Hsfuel]. }
+  destruct (flatten_closed pfam mm rank edge_rank sfuel L Hes) as (V & C & Cov).
+  assert (Hcov_in : forall i, In (EIn i) L -> In (EIn i) L').
+  { intros i Hi. destruct (Cov _ Hi) as [Ho | Hv]; [exact Ho|].
+    destruct (V _ Hv) as (g' & mg & E0 & _). discriminate. }
+  constructor; cbn [m_verified m_edges m_untracked m_dur].
+  - intros i Hi. apply Hcov_in. apply (mo_in _ _ _ _ _ _ _ _ Hok i Hi).
+  - intros Hu d Hd Hn. apply orb_false_iff in Hu. destruct Hu as [Hu Hlost].
+    assert (Hvt : forall g mg, In (EQ g) (snd (flatten_full pfam mm sfuel L)) -> mm g = Some mg ->
+              m_untracked mg = false).
+    { intros g mg Hg Hmg. destruct (m_untracked mg) eqn:Hug; [|reflexivity].
+      unfold lost_untracked in Hlost. fold mm L in Hlost.
+      assert (X : existsb (fun e => match e with
+                                    | EQ g => match mm g with Some m => m_untracked m | None => false end
+                                    | EIn _ => false
+                                    end) (snd (flatten_full pfam mm sfuel L)) = true).
+      { apply existsb_exists. exists (EQ g). split; [exact Hg|]. rewrite Hmg. exact Hug. }
+      congruence. }
+    destruct (N.eq_dec (m_dur m) 0) as [Hz | Hnz].
+    2:{ apply (good_never prog NF fm H D s2 L' (m_verified m) d (m_verified m) (m_dur m) Hfm); [lia | lia|].
+        apply (durge_q _ _ _ _ _ _ _ _ (mo_durge _ _ _ _ _ _ _ _ Hok) Hd). }
+    assert (Hedge : forall e, In (EQ e) L -> ~ In (EQ e) L' -> good H D s2 L' (m_verified m) e).
+    { intros e He Hne. destruct (Cov _ He) as [Ho | Hv]; [contradiction|].
+      destruct (V _ Hv) as (g' & me & E0 & Hme). injection E0 as <-.
+      apply (exp_good q m Hvt (S (rank e)) e me (le_n _) Hv Hme).
+      apply (mo_sync _ _ _ _ _ _ _ _ Hok Hz e me He Hme). }
+    destruct (edge_in_dec (EQ d) L) as [HinL | HnL].
+    + apply Hedge; assumption.
+    + apply (good_subst H D s s2 L L' (m_verified m) (m_verified m) d Hot); [lia | lia | exact Hcov_in | exact Hedge|].
+      apply (mo_q _ _ _ _ _ _ _ _ Hok Hu d Hd HnL).
+  - intros y Hy Huy. rewrite (mo_reads_cell _ _ _ _ _ _ _ _ Hok y Hy Huy). reflexivity.
+  - intros g Hg. apply (flat_reach q m Hm g Hg).
+  - left. exact Hfm.
+  - intros Hz d md' Hd Hmd'. rewrite Hm2 in Hmd'. unfold snap_memo in Hmd'. fold mm in Hmd'.
+    destruct (mm d) as [md|] eqn:Hmd; [|discriminate].
+    destruct (m_val md); [|discriminate]. destruct (pfam (fst d)); [|discriminate].
+    injection Hmd' as <-. cbn.
+    destruct (flatten_fn pfam mm sfuel L d Hd) as [HinL | Hnone]; [|congruence].
+    apply (mo_sync _ _ _ _ _ _ _ _ Hok Hz d md HinL Hmd).
+Qed.
+
+End OneState.
+
+Lemma snapshot_sub_core mm : sub_core mm (snap_memo pfam mm sfuel).
+Proof.
+  intros q m' Hs. unfold snap_memo in Hs.
+  destruct (mm q) as [m|] eqn:Hm; [|discriminate].
+  destruct (m_val m) as [x|] eqn:Hx; [|discriminate].
+  destruct (pfam (fst q)); [|discriminate]. injection Hs as <-.
+  exists m. split; [reflexivity|]. repeat split; cbn; auto. rewrite Hx. auto.
+Qed.
+
+(* the transfer, for a target s2 that has the restored memo table and the revisions and inputs of s *)
+Lemma restore_transfer H D s s2 :
+  DInv_d uprog NF fm H D s ->
+  d_revs s2 = d_revs s -> d_in s2 = d_in s -> d_memo s2 = snap_memo pfam (d_memo s) sfuel ->
+  (forall c, sn_cell (H (cur s2)) c = d_cell s2 c) ->
+  DInv H D s2.
+Proof.
+  intros HI Hr Hi Hmm Hcell.
+  destruct (DInv_d_facts uprog NF fm H D s HI) as (F1 & F2 & F3 & F4 & F5 & F6 & F7 & F8 & F9 & F10).
+  assert (Hc : cur s2 = cur s) by (unfold cur; rewrite Hr; reflexivity).
+  assert (Hcle : cur s <= cur s2) by lia.
+  assert (Hlc : forall k, lcs s k <= lcs s2 k) by (intros k; unfold lcs; rewrite Hr; lia).
+  assert (Hsub : sub_core (d_memo s) (d_memo s2)) by (rewrite Hmm; apply snapshot_sub_core).
+  assert (Hpast : forall r, r <= cur s -> H r = H r /\ forall i, D r i = D r i) by (intros; split; reflexivity).
+  assert (HIm : forall g mg, d_memo s g = Some mg -> dmemo_ok H D s g mg).
+  { intros g mg Hg. apply (dmemo_ok_same prog NF fm H D (set_cell s (sn_cell (H (cur s))))); [reflexivity | reflexivity|].
+    apply (inv_memo _ _ _ _ _ _ HI g mg Hg). }
+  apply (DInv_transfer uprog NF fm H D H D s s2 HI Hcle Hlc Hsub Hpast); rewrite ?Hc, ?Hi, ?Hr; auto.
+  - intros q m' Hm'.
+    apply (flat_edges_ok H D s s2 HIm (obs_transfer uprog NF fm H D H D s s2 HI Hcle Hlc Hsub Hpast) Hc Hmm q m' Hm').
+  - rewrite <- Hc. exact Hcell.
+  - intros r i Hlt Hl. apply F8; [exact Hlt|]. unfold lcs in *. rewrite Hr in Hl. exact Hl.
+  - intros Hf k Hk. specialize (F10 Hf k Hk). unfold lcs in *. rewrite Hr. exact F10.
+Qed.
+
+Theorem restore_flat_ok s ext :
+  OK_d s -> d_stack s = [] ->
+  state_ok true (restore (snapshot pfam sfuel s) ext lru0).
+Proof.
+  intros (H & D & HI) Hst. split; [|reflexivity].
+  exists H, D. unfold DInv_d.
+  apply (restore_transfer H D s _ HI); [reflexivity | reflexivity | reflexivity | intros c; reflexivity].
+Qed.
+
+Theorem restore_flat_ok_clean s ext :
+  OK s -> d_stack s = [] -> d_cell ext = d_cell s ->
+  state_ok false (restore (snapshot pfam sfuel s) ext lru0).
+Proof.
+  intros (H & D & HI) Hst Hce. split; [|reflexivity].
+  exists H, D.
+  apply (restore_transfer H D s _ (DInv_to_d uprog NF fm H D s HI)); [reflexivity | reflexivity | reflexivity|].
+  intros c. cbn. rewrite Hce. apply (inv_cell _ _ _ _ _ _ HI).
+Qed.
+
+End Flat.
 
 (* ---------------------------------------------------------------- the run *)
 (* the harness state: the database is ok; the serialised database, if any, was taken from an ok
@@ -281,9 +592,19 @@ Proof.
   exists s0. repeat split; auto. intros Hs. rewrite (Hc Hs). apply D0; exact Hs.
 Qed.
 
+(* what a restore has to deliver (Section Closed, Section Flat) *)
+Definition restore_good : Prop :=
+  (forall s ext, OK_d s -> d_stack s = [] -> state_ok true (restore (snapshot pfam sfuel s) ext lru0)) /\
+  (forall s ext, OK s -> d_stack s = [] -> d_cell ext = d_cell s ->
+                 state_ok false (restore (snapshot pfam sfuel s) ext lru0)).
+
+(* in flat mode the operations keep every durability LOW *)
+Definition low_op (o : op) : Prop :=
+  fm = true -> match o with OSet _ _ (Some d) => d = 0 | OSynth d => d = 0 | _ => True end.
+
 Lemma step_ok fuel now since p o :
-  (forall q, (rank q < fuel)%nat) -> Statement.dur_op o ->
-  (o = ORestore -> Statement.persisted_closed uprog pfam) ->
+  (forall q, (rank q < fuel)%nat) -> Statement.dur_op o -> low_op o ->
+  (o = ORestore -> restore_good) ->
   pstate_ok now since p ->
   match o with
   | OGet q =>
@@ -298,20 +619,21 @@ Lemma step_ok fuel now since p o :
   | _ => pstate_ok now since (fst (pstep fuel p o))
   end.
 Proof.
-  intros Hfuel Hdop Hcl Hok. pose proof Hok as (Hdb & Hns & Himg).
+  intros Hfuel Hdop Hlop Hcl Hok. pose proof Hok as (Hdb & Hns & Himg).
   set (s := ps_db p) in *.
   assert (Hst : d_stack s = []) by (destruct Hdb; assumption).
   unfold Statement.pstep.
   destruct o as [i v d | d | c v | c v | q | fam n | | |]; cbn [step fst snd]; fold s; unfold pstate_ok; cbn [with_db ps_db ps_img].
   - (* OSet *)
-    destruct (db_set_ok now s i v d Hdop Hdb) as [H1 H2].
+    assert (Hld : low_dur d) by (intros Hf; specialize (Hlop Hf); destruct d; [exact Hlop | exact I]).
+    destruct (db_set_ok now s i v d Hdop Hld Hdb) as [H1 H2].
     destruct (f_dur (d_in (new_revision fams (zalsa_mut fams s)) i) =? D_NEVER) eqn:Hn; cbn [fst].
     + split; [exact H1|]. split; [discriminate|]. apply (img_keep now since p); [exact Hok|]. intros _.
       cbn. destruct (new_revision_facts (zalsa_mut fams s)) as (_ & B & _). rewrite B. apply zalsa_mut_cell.
     + split; [exact (H2 eq_refl)|]. split; [discriminate|]. apply (img_keep now since p); [exact Hok|]. intros _.
       cbn. destruct (new_revision_facts (zalsa_mut fams s)) as (_ & B & _). rewrite B. apply zalsa_mut_cell.
   - (* OSynth *)
-    destruct (db_synth_ok now s d Hdb) as [H1 H2].
+    destruct (db_synth_ok now s d Hlop Hdb) as [H1 H2].
     destruct (d =? D_NEVER); cbn [fst].
     + split; [exact H1|]. split; [discriminate|]. apply (img_keep now since p); [exact Hok|]. intros _.
       cbn. destruct (new_revision_facts (zalsa_mut fams s)) as (_ & B & _). rewrite B. apply zalsa_mut_cell.
@@ -352,8 +674,8 @@ Proof.
     split.
     + split; [|rewrite A4, zalsa_mut_stack; exact Hst].
       destruct now; destruct Hdb as [A _].
-      * apply (OK_d_same uprog NF (zalsa_mut fams s)); auto; [apply OK_d_zalsa_mut; exact A | apply evicted_sub_sim; exact A5].
-      * apply (OK_same uprog NF (zalsa_mut fams s)); auto; [apply OK_zalsa_mut; exact A | apply evicted_sub_sim; exact A5].
+      * apply (OK_d_same uprog NF fm (zalsa_mut fams s)); auto; [apply OK_d_zalsa_mut; exact A | apply evicted_sub_sim; exact A5].
+      * apply (OK_same uprog NF fm (zalsa_mut fams s)); auto; [apply OK_zalsa_mut; exact A | apply evicted_sub_sim; exact A5].
     + split; [exact Hns|]. apply (img_keep now since p); [exact Hok|]. intros _. rewrite A3. apply zalsa_mut_cell.
   - (* OSnapshot *)
     intros ->. split; [exact Hdb|]. split; [discriminate|].
@@ -364,8 +686,8 @@ Proof.
     + destruct (Himg img eq_refl) as (s0 & -> & B & C & D0).
       split; [|split; [auto|]].
       * destruct since.
-        -- apply restore_ok; [exact (Hcl eq_refl) | apply OK_to_d; exact B | exact C].
-        -- apply restore_ok_clean; [exact (Hcl eq_refl) | exact B | exact C | symmetry; apply D0; reflexivity].
+        -- apply (proj1 (Hcl eq_refl)); [apply OK_to_d; exact B | exact C].
+        -- apply (proj2 (Hcl eq_refl)); [exact B | exact C | symmetry; apply D0; reflexivity].
       * intros img' Hi'. injection Hi' as <-.
         exists s0. repeat split; auto.
     + fold s. split; [|split; [auto|]].
@@ -378,18 +700,19 @@ Qed.
 (* ---------------------------------------------------------------- the results theorems *)
 Theorem results_general fuel :
   (forall q, (rank q < fuel)%nat) ->
-  forall ops now since p, Forall Statement.dur_op ops -> Statement.wf_ops now since ops ->
-    (In ORestore ops -> Statement.persisted_closed uprog pfam) ->
+  forall ops now since p, Forall Statement.dur_op ops -> Forall low_op ops ->
+    Statement.wf_ops now since ops ->
+    (In ORestore ops -> restore_good) ->
     pstate_ok now since p ->
     Statement.known_class_free uprog noeq pfam fams lru0 sfuel fuel p ops ->
     Statement.results_ok uprog noeq pfam fams lru0 NF sfuel fuel p ops.
 Proof.
-  intros Hfuel. induction ops as [|o ops IH]; intros now since p Hdur Hwf Hcl Hok Hk; [exact I|].
-  inversion Hdur as [|? ? Hdo Hdurs]; subst.
+  intros Hfuel. induction ops as [|o ops IH]; intros now since p Hdur Hlow Hwf Hcl Hok Hk; [exact I|].
+  inversion Hdur as [|? ? Hdo Hdurs]; subst. inversion Hlow as [|? ? Hlo Hlows]; subst.
   cbn [Statement.results_ok Statement.known_class_free] in *. destruct Hk as [Hk1 Hk2].
-  assert (Hcl1 : o = ORestore -> Statement.persisted_closed uprog pfam) by (intros ->; apply Hcl; now left).
-  assert (Hcl2 : In ORestore ops -> Statement.persisted_closed uprog pfam) by (intros Hin; apply Hcl; now right).
-  pose proof (step_ok fuel now since p o Hfuel Hdo Hcl1 Hok) as Hs.
+  assert (Hcl1 : o = ORestore -> restore_good) by (intros ->; apply Hcl; now left).
+  assert (Hcl2 : In ORestore ops -> restore_good) by (intros Hin; apply Hcl; now right).
+  pose proof (step_ok fuel now since p o Hfuel Hdo Hlo Hcl1 Hok) as Hs.
   destruct o as [i v d | d | c v | c v | q | fam n | | |]; cbn [Statement.wf_ops] in Hwf.
   - split; [exact I|]. apply (IH false since); assumption.
   - split; [exact I|]. apply (IH false since); assumption.
@@ -404,9 +727,11 @@ Proof.
   - split; [exact I|]. apply (IH since since); assumption.
 Qed.
 
-Lemma init_ok iv idur : (forall i, idur i <= 3) -> pstate_ok false false (pinit iv idur lru0).
+Lemma init_ok iv idur :
+  (forall i, idur i <= 3) -> (fm = true -> forall i, idur i = 0) ->
+  pstate_ok false false (pinit iv idur lru0).
 Proof.
-  intros Hid. split; [|split; [discriminate | intros img Hi; discriminate]].
+  intros Hid Hlow. split; [|split; [discriminate | intros img Hi; discriminate]].
   split; [|reflexivity].
   exists (fun _ => csnap (init iv idur lru0)), (fun _ => idur).
   constructor.
@@ -419,6 +744,24 @@ Proof.
   - intros r i. apply Hid.
   - intros r i _ _. split; reflexivity.
   - intros q m Hm. discriminate.
+  - intros Hf r i. apply (Hlow Hf).
+  - intros Hf k Hk. unfold lcs, init; cbn.
+    destruct (lc_cases {| r_cur := REV_START; r_med := REV_START; r_high := REV_START |} k)
+      as [[-> E0] | [[-> E0] | [[-> E0] | [Hk3 E0]]]]; rewrite E0; cbn; unfold REV_START; lia.
+Qed.
+
+Lemma restore_good_closed : Statement.persisted_closed uprog pfam -> restore_good.
+Proof.
+  intros Hcl. split.
+  - intros s ext. apply restore_ok. exact Hcl.
+  - intros s ext. apply restore_ok_clean. exact Hcl.
+Qed.
+
+Lemma restore_good_flat : fm = true -> (forall p, (S (rank p) < sfuel)%nat) -> restore_good.
+Proof.
+  intros Hf Hs. split.
+  - intros s ext. apply restore_flat_ok; assumption.
+  - intros s ext. apply restore_flat_ok_clean; assumption.
 Qed.
 
 End Top.
@@ -435,6 +778,9 @@ Hypothesis Hrank : Spec.calls_below prog rank.
 Variable NF : nat.
 Hypothesis Hbound : forall q, (rank q < NF)%nat.
 
+Let no_low ops : Forall (low_op false) ops.
+Proof. apply Forall_forall. intros o _ Hf. discriminate. Qed.
+
 (* histories WITHOUT restore (snapshots allowed): C01 for the persist-mode model *)
 Theorem results_no_restore fuel sfuel :
   (forall p, (rank p < fuel)%nat) ->
@@ -445,8 +791,9 @@ Theorem results_no_restore fuel sfuel :
     Statement.results_ok prog noeq pfam fams lru0 NF sfuel fuel (pinit iv idur lru0) ops.
 Proof.
   intros Hfuel iv idur ops Hid Hdur Hwf Hnr Hk.
-  apply (results_general prog noeq pfam fams lru0 rank (calls_below_tb prog rank Hrank) NF Hbound sfuel fuel Hfuel
-           ops false false _ Hdur Hwf); [intros Hin; contradiction | apply init_ok; exact Hid | exact Hk].
+  apply (results_general prog noeq pfam fams lru0 rank (calls_below_tb prog rank Hrank) NF Hbound sfuel false fuel Hfuel
+           ops false false _ Hdur (no_low ops) Hwf); [intros Hin; contradiction | | exact Hk].
+  apply init_ok; [exact Hid | discriminate].
 Qed.
 
 (* histories with snapshots AND restores, when persisted functions only call persisted ones *)
@@ -459,8 +806,30 @@ Theorem results_closed fuel sfuel :
     Statement.results_ok prog noeq pfam fams lru0 NF sfuel fuel (pinit iv idur lru0) ops.
 Proof.
   intros Hfuel Hcl iv idur ops Hid Hdur Hwf Hk.
-  apply (results_general prog noeq pfam fams lru0 rank (calls_below_tb prog rank Hrank) NF Hbound sfuel fuel Hfuel
-           ops false false _ Hdur Hwf); [intros _; exact Hcl | apply init_ok; exact Hid | exact Hk].
+  apply (results_general prog noeq pfam fams lru0 rank (calls_below_tb prog rank Hrank) NF Hbound sfuel false fuel Hfuel
+           ops false false _ Hdur (no_low ops) Hwf); [intros _; apply restore_good_closed; exact Hcl | | exact Hk].
+  apply init_ok; [exact Hid | discriminate].
+Qed.
+
+(* histories with snapshots AND restores, EVERY program and choice of persisted functions
+   (dependencies are flattened away to any depth), when all durabilities are LOW *)
+Theorem results_low fuel sfuel :
+  (forall p, (rank p < fuel)%nat) -> (forall p, (S (rank p) < sfuel)%nat) ->
+  forall iv ops,
+    Forall Statement.low_op ops -> Statement.wf_ops false false ops ->
+    Statement.known_class_free prog noeq pfam fams lru0 sfuel fuel (pinit iv (fun _ => 0) lru0) ops ->
+    Statement.results_ok prog noeq pfam fams lru0 NF sfuel fuel (pinit iv (fun _ => 0) lru0) ops.
+Proof.
+  intros Hfuel Hsfuel iv ops Hlow Hwf Hk.
+  assert (Hdur : Forall Statement.dur_op ops).
+  { apply Forall_forall. intros o Ho. rewrite Forall_forall in Hlow. specialize (Hlow o Ho).
+    destruct o as [i v [d|] | d | | | | | | |]; cbn in *; try exact I. lia. }
+  assert (Hl : Forall (low_op true) ops).
+  { apply Forall_forall. intros o Ho _. rewrite Forall_forall in Hlow. specialize (Hlow o Ho).
+    destruct o as [i v [d|] | d | | | | | | |]; cbn in *; auto. }
+  apply (results_general prog noeq pfam fams lru0 rank (calls_below_tb prog rank Hrank) NF Hbound sfuel true fuel Hfuel
+           ops false false _ Hdur Hl Hwf); [intros _; exact (restore_good_flat prog pfam lru0 rank (calls_below_tb prog rank Hrank) NF sfuel true eq_refl Hsfuel) | | exact Hk].
+  apply init_ok; [intros i; lia | intros _ i; reflexivity].
 Qed.
 
 End Final.
